@@ -5,6 +5,10 @@ Decided clause: frame discipline in getBH_level2 (E2-FRAME):
       path; the field written back for a rotated sensor is  Rot[sens->G].inv().apply(Vec[G]) : Vec[sens]  on every branch;
       every rotation application in the function is judged
   F4  the handedness branch negates exactly component 0 of the last axis and nothing else
+  F5  the `unrotated` / `static orientation` fast-path predicates quantify over the whole orientation path
+  F6  the left-handed flip precedes pixel aggregation;  F7 it is reached for every sensor (not nested under the rotation test, not
+      after a `continue`);  F8 every pixel block goes through the aggregator whatever its size
+  F9  a constant index into a pose path (`_orientation[0]`) is used only under a staticness guard (or as `[-1]` padding)
 Not decided: pixel slice offsets, the `unrotated`/`static` fast-path predicates, pixel_agg axis arithmetic.
 """
 import frame_rules
@@ -15,7 +19,7 @@ EXPLANATION = ("coordinate-frame typing of getBH_level2: pixel placement (rotate
 
 
 def run(repo, res, tier):
-    res.rules = ["F3 pixel placement / back-rotation typing", "F4 handedness flips component 0 only"]
+    res.rules = ["F3 pixel placement / back-rotation typing", "F4 handedness flips component 0 only", "F5 path predicates quantify over the path", "F6 flip before aggregation", "F7 flip reached for every sensor", "F8 aggregation unconditional", "F9 constant path index only under a staticness guard"]
     extra = frame_rules.c04(repo, res)
     res.assumptions += ["declared types: sens.pixel : Vec[sens], sens._orientation : Rot[sens->G], sens._position : Pt[G]; getBH_level1(...) : Vec[G]"]
     return extra
